@@ -18,6 +18,9 @@ pub mod c13;
 pub mod c14;
 pub mod c16;
 pub mod c17;
+pub mod c18;
+pub mod c19;
+pub mod c20;
 pub mod runs;
 
 pub fn run(id: &str, rep: &mut Report) -> bool {
@@ -50,6 +53,9 @@ pub fn run(id: &str, rep: &mut Report) -> bool {
         "C14" => c14::run(rep),
         "C16" => c16::run(rep),
         "C17" => c17::run(rep),
+        "C18" => c18::run(rep),
+        "C19" => c19::run(rep),
+        "C20" => c20::run(rep),
         _ => return false,
     }
     true
@@ -73,6 +79,9 @@ pub fn replay(id: &str, case: &Value) -> Result<Vec<(String, String)>, String> {
         "C14" => c14::replay(case),
         "C16" => c16::replay(case),
         "C17" => c17::replay(case),
+        "C18" => c18::replay(case),
+        "C19" => c19::replay(case),
+        "C20" => c20::replay(case),
         _ => Err(format!("no replay for {}", id)),
     }
 }
